@@ -25,6 +25,8 @@ type ScenarioStat struct {
 	Name       string           `json:"name"`
 	P          int              `json:"P"`
 	T          int              `json:"T"`
+	N          int              `json:"N"`
+	D          int              `json:"D"`
 	Execs      int64            `json:"executions"`
 	Events     int64            `json:"transitions"`
 	States     int64            `json:"states"`
@@ -133,6 +135,7 @@ func (r *Result) Write(e Env) {
 type Scenario struct {
 	Name  string
 	P, T  int
+	N, D  int // see vs.Config
 	Horizon time.Duration
 	Race  bool
 	// Body builds fresh objects and runs the system; Check classifies the
@@ -166,7 +169,7 @@ func RunScenarios(prop string, scs []Scenario) {
 	start := time.Now()
 	var allStates map[uint64]struct{}
 	for i, sc := range scs {
-		cfg := vs.Config{P: sc.P, T: sc.T, Horizon: sc.Horizon, Shard: e.Shard, Shards: e.Shards, CountStates: true, Race: sc.Race}
+		cfg := vs.Config{P: sc.P, T: sc.T, N: sc.N, D: sc.D, Horizon: sc.Horizon, Shard: e.Shard, Shards: e.Shards, CountStates: true, Race: sc.Race}
 		if !e.Deadline.IsZero() {
 			remain := time.Until(e.Deadline)
 			share := remain / time.Duration(len(scs)-i)
@@ -177,7 +180,7 @@ func RunScenarios(prop string, scs []Scenario) {
 		}
 		t0 := time.Now()
 		rep := vs.Explore(cfg, sc.Body, sc.Check)
-		st := ScenarioStat{Name: sc.Name, P: sc.P, T: sc.T, Execs: rep.Execs, Events: rep.Events, States: rep.States,
+		st := ScenarioStat{Name: sc.Name, P: sc.P, T: sc.T, N: sc.N, D: sc.D, Execs: rep.Execs, Events: rep.Events, States: rep.States,
 			MaxPoints: rep.MaxPoints, Exhaustive: !rep.Capped, Outcomes: rep.Outcomes, WallS: time.Since(t0).Seconds()}
 		res.Scenarios = append(res.Scenarios, st)
 		res.Evaluations += rep.Execs
@@ -214,7 +217,7 @@ func RunScenarios(prop string, scs []Scenario) {
 				res.Infra = fmt.Sprintf("%s: violation %q did not reproduce 5/5 from its schedule (nondeterminism)", sc.Name, s)
 				break
 			}
-			res.Violations = append(res.Violations, Violation{Sig: f.Sig, Desc: f.Desc, Cost: f.Preemptions + f.EarlyTimers,
+			res.Violations = append(res.Violations, Violation{Sig: f.Sig, Desc: f.Desc, Cost: f.Preemptions + f.EarlyTimers + f.Switches,
 				Replay: ReplayFile{Property: prop, Scenario: sc.Name, Params: sc.Params, Choices: f.Choices, Sig: f.Sig, Desc: f.Desc}})
 		}
 		if len(rep.FirstChoices) > 0 && len(res.Samples) < 6 {
@@ -241,7 +244,7 @@ func replay(prop string, e Env, scs []Scenario) {
 		if sc.Name != rf.Scenario {
 			continue
 		}
-		cfg := vs.Config{P: sc.P, T: sc.T, Horizon: sc.Horizon, Race: sc.Race}
+		cfg := vs.Config{P: sc.P, T: sc.T, N: sc.N, D: sc.D, Horizon: sc.Horizon, Race: sc.Race}
 		x := vs.Replay(cfg, rf.Choices, sc.Body)
 		for _, ev := range x.Trace {
 			fmt.Printf("%4d %-10s %-24s alt=%d %-28s t=%s\n", ev.N, ev.Thread, ev.Kind, ev.Alt, ev.Site, ev.Now)
